@@ -97,11 +97,22 @@ pub fn run_roundtrip(ctx: &mut Ctx) {
     let rt = rt();
     for case_no in 0..ncases {
         let mut rng = ctx.rng.fork(7000 + case_no);
-        let n = match rng.below(10) { 0 => 1, 1 => 2, 2 | 3 => rng.range(3, 9) as usize, 4 | 5 | 6 => rng.range(10, 60) as usize, _ => rng.range(61, if ctx.quick() { 200 } else { 1500 }) as usize };
+        // the first cases of a run are many-chunk xorbs of tiny chunks: chunk counts around the powers of two, around the
+        // footer parser's preallocation cap (9/8 of 1024) and up to the configured maximum number of chunks per xorb
+        let many = case_no < if ctx.quick() { 4 } else { 24 };
+        let n = if many {
+            let maxn = *deduplication::constants::MAX_XORB_CHUNKS;
+            let base = *rng.pick(&[1024usize, 1152, 2048, 4096, 8192]);
+            let cand = match case_no % 4 { 0 => (base + rng.below(3) as usize).saturating_sub(1), 1 => rng.range(1153, 2100) as usize, 2 => rng.range(2100, 8192) as usize, _ => maxn - rng.below(2) as usize };
+            cand.clamp(1, maxn)
+        } else {
+            match rng.below(10) { 0 => 1, 1 => 2, 2 | 3 => rng.range(3, 9) as usize, 4 | 5 | 6 => rng.range(10, 60) as usize, _ => rng.range(61, if ctx.quick() { 200 } else { 1500 }) as usize }
+        };
         let big = n <= 40;
         let mut chunks = Vec::new();
         for i in 0..n {
             let len = match rng.below(8) {
+                _ if many => 1 + (i % 9),
                 0 => 1 + (i % 9),
                 1 => rng.range(1, 70) as usize,
                 2 if big => 131072 - rng.below(4) as usize,
@@ -135,7 +146,13 @@ pub fn run_roundtrip(ctx: &mut Ctx) {
 
         // ---- xorb.read: footer + range reads
         let (ooff, olen) = ctx.blob(&b.obj);
-        let cas = CasObject::deserialize(&mut Cursor::new(&b.obj)).unwrap();
+        let cas = match CasObject::deserialize(&mut Cursor::new(&b.obj)) {
+            Ok(c) => c,
+            Err(e) => {
+                ctx.fail("C07", "deserialize-valid", format!("CasObject::deserialize rejects a xorb that serialize_given_info just wrote ({n} chunks, case {case_no}): {e:?}"), replay.clone());
+                continue;
+            }
+        };
         let mut ranges: Vec<(u32, u32)> = Vec::new();
         if n <= 8 { for i in 0..=n as u32 { for j in 0..=(n as u32 + 1) { ranges.push((i, j)); } } }
         else { for _ in 0..12 { let i = rng.below(n as u64) as u32; let j = rng.range(i as u64, n as u64 + 1) as u32; ranges.push((i, j)); } ranges.push((0, n as u32)); ranges.push((n as u32 - 1, n as u32)); ranges.push((0, 1)); ranges.push((3, 2)); }
@@ -183,7 +200,7 @@ pub fn run_roundtrip(ctx: &mut Ctx) {
         ctx.op(&format!("xorb.decoders off={ooff} len={clen}"), &format!("sync={sync_s} async={asy_s}"));
 
         ctx.stat(&format!("scheme_{}", ["none", "lz4", "bg4lz4", "auto"][scheme_kind as usize]));
-        ctx.stat(&format!("nchunks_{}", if n == 1 { "1" } else if n < 10 { "2-9" } else if n < 100 { "10-99" } else { "100+" }));
+        ctx.stat(&format!("nchunks_{}", if n == 1 { "1" } else if n < 10 { "2-9" } else if n < 100 { "10-99" } else if n <= 1024 { "100-1024" } else { "1025+" }));
         ctx.stat_add("fallback_chunks", fallback);
         ctx.stat_add("chunks", n as u64);
         ctx.stat_add("bg4_chunks", b.schemes.iter().filter(|s| **s == CompressionScheme::ByteGrouping4LZ4).count() as u64);
